@@ -117,9 +117,9 @@ func (s *supSOFO) childTerminated(name gen.Atom, pid gen.PID, reason error) supA
 	var action supAction
 
 	delete(s.pids, pid)
+	delete(s.wait, pid)
 
 	if s.shutdown {
-		delete(s.wait, pid)
 		if len(s.wait) > 0 {
 			// return action with empty process list for termination
 			action.do = supActionTerminateChildren
